@@ -27,6 +27,19 @@ import (
 //
 // The roots "/" and the relative ones are only examined lexically: running
 // RemoveAll against them on a broken tree would delete real files.
+//
+// The behavioural part has a root-kind axis: the Dir's root is a plain
+// directory, or a symbolic link (outside the served tree, several levels away
+// from its target) to a directory. For the second kind the link itself is
+// part of "outside the root" (it must keep existing and keep its target), the
+// target's parent carries sentinels too, and the target's contents are the
+// inside. A third enumeration ("root-ops") is devoted to the last clause: for
+// every spelling of the root among the names, both root kinds and the root
+// path spellings, Rename with the root as destination only (source: file,
+// nested file, non-empty directory, empty directory, missing names), as source
+// only (same partners as destination), on both sides (partner: a few fixed
+// spellings of the root and the name itself) and RemoveAll must each fail and
+// change nothing at, inside or outside the root.
 
 var c45Frags = []string{"/", ".", "..", "a", "b", "//", "/../", "a/..", "..a", "a..", "...", "\x00",
 	"%2f", "%2e%2e", `\`, `..\`, " ", "a/./b"}
@@ -77,14 +90,115 @@ type c45Lex struct {
 type c45Beh struct {
 	Style int    `json:"root_style"`
 	Name  string `json:"name"`
+	Kind  int    `json:"root_kind"`
 }
 
 var c45Styles = []string{"plain", "trailing-slash", "r/../r", "double-slash", "dot-segment"}
 
+var c45Kinds = []string{"directory", "symlink-to-directory"}
 
-// c45Snap lists everything under base (name, kind, size; the fixture gives
-// every file a distinct size class so that overwriting shows), split into the
-// part inside root and the part outside of it (root itself counts as outside).
+// c45Tree is the per-case fixture: base/x1/../x<levels>/r with a sentinel file
+// a and directory b at every level outside r. r is a directory (kind 0) or a
+// symbolic link to the directory base/real/t (kind 1; base/real holds
+// sentinels too). The served directory holds a/ (with the file a/b), the file
+// b and the empty directory e.
+type c45Tree struct {
+	base   string
+	root   string // the path the Dir is made of (cleaned form)
+	inside string // the directory whose contents are served: root, or the link's target
+	target string // what the link r holds ("" for kind 0)
+	d      Dir
+}
+
+func c45MkTree(parentDir string, levels, kind, style int) c45Tree {
+	base, err := os.MkdirTemp(parentDir, "k")
+	if err != nil {
+		panic(err)
+	}
+	must := func(err error) {
+		if err != nil {
+			panic("c45 fixture: " + err.Error())
+		}
+	}
+	sentinels := func(dir string) {
+		must(os.WriteFile(filepath.Join(dir, "a"), nil, 0o666)) // empty: any write shows in the size
+		must(os.Mkdir(filepath.Join(dir, "b"), 0o777))
+	}
+	dir := base
+	for l := 1; l <= levels; l++ {
+		dir = filepath.Join(dir, fmt.Sprintf("x%d", l))
+		must(os.Mkdir(dir, 0o777))
+		sentinels(dir)
+	}
+	parent := dir
+	t := c45Tree{base: base, root: filepath.Join(parent, "r")}
+	switch kind {
+	case 0:
+		t.inside = t.root
+		must(os.Mkdir(t.root, 0o777))
+	case 1:
+		real := filepath.Join(base, "real")
+		must(os.Mkdir(real, 0o777))
+		sentinels(real)
+		t.inside = filepath.Join(real, "t")
+		t.target = t.inside
+		must(os.Mkdir(t.inside, 0o777))
+		must(os.Symlink(t.target, t.root))
+	default:
+		panic("bad kind")
+	}
+	must(os.Mkdir(filepath.Join(t.inside, "a"), 0o777))
+	must(os.WriteFile(filepath.Join(t.inside, "a", "b"), []byte("in"), 0o666))
+	must(os.WriteFile(filepath.Join(t.inside, "b"), []byte("inside"), 0o666))
+	must(os.Mkdir(filepath.Join(t.inside, "e"), 0o777))
+	switch style {
+	case 0:
+		t.d = Dir(t.root)
+	case 1:
+		t.d = Dir(t.root + "/")
+	case 2:
+		t.d = Dir(t.root + "/../r")
+	case 3:
+		t.d = Dir(parent + "//r")
+	case 4:
+		t.d = Dir(parent + "/./r")
+	default:
+		panic("bad style")
+	}
+	return t
+}
+
+// rootGone reports (as a non-empty description) that the root is no longer
+// what the fixture made it: a directory, or a link with the same target that
+// still leads to a directory.
+func (t c45Tree) rootGone() string {
+	fi, err := os.Lstat(t.root)
+	if err != nil {
+		return err.Error()
+	}
+	if t.target == "" {
+		if !fi.IsDir() {
+			return "root is now " + fi.Mode().String()
+		}
+		return ""
+	}
+	if fi.Mode()&os.ModeSymlink == 0 {
+		return "the root link was replaced, now " + fi.Mode().String()
+	}
+	if got, err := os.Readlink(t.root); err != nil || got != t.target {
+		return fmt.Sprintf("the root link now holds %q (%v), was %q", got, err, t.target)
+	}
+	if fi, err := os.Stat(t.root); err != nil || !fi.IsDir() {
+		return fmt.Sprintf("the root link no longer leads to a directory (%v)", err)
+	}
+	return ""
+}
+
+
+// c45Snap lists everything under base (name, kind, size, link target; the
+// fixture gives every file a distinct size class so that overwriting shows),
+// split into the part inside root and the part outside of it (root itself
+// counts as outside). Links are listed, not followed.
 func c45Snap(base, root string) (outside, inside string) {
 	var o, i []string
 	var walk func(dir string, in bool)
@@ -103,6 +217,10 @@ func c45Snap(base, root string) (outside, inside string) {
 				} else {
 					line += " ERR " + err.Error()
 				}
+			}
+			if e.Type()&os.ModeSymlink != 0 {
+				tg, err := os.Readlink(p)
+				line += fmt.Sprintf(" -> %q %v", strings.TrimPrefix(tg, base), err)
 			}
 			if in {
 				i = append(i, line)
@@ -197,59 +315,26 @@ func TestVerif_C45(t *testing.T) {
 		c.Note("behavioural_names", len(behNames))
 		vx.Enumerate(c, "fs", vx.Opts{}, func(yield func(c45Beh) bool) {
 			for i, n := range behNames {
-				for s := range c45Styles {
-					if s >= 2 && i >= allStyles {
-						break // the longest names only with the first two root spellings
-					}
-					if !yield(c45Beh{s, n}) {
-						return
+				for k := range c45Kinds {
+					for s := range c45Styles {
+						if i >= allStyles && s >= 2-k {
+							break // the longest names only with the first two root spellings (linked root: the first)
+						}
+						if !yield(c45Beh{Style: s, Name: n, Kind: k}) {
+							return
+						}
 					}
 				}
 			}
 		}, func(w *vx.W, x c45Beh) {
-			base, err := os.MkdirTemp(filepath.Join(tmp, fmt.Sprint(vx.Hash64(x.Name)%64)), "k")
-			if err != nil {
-				panic(err)
-			}
-			defer os.RemoveAll(base)
-			must := func(err error) {
-				if err != nil {
-					panic("c45 fixture: " + err.Error())
-				}
-			}
-			// base/x1/.../x6/r, sentinels at every level outside r
-			dir := base
-			for l := 1; l <= levels; l++ {
-				dir = filepath.Join(dir, fmt.Sprintf("x%d", l))
-				must(os.Mkdir(dir, 0o777))
-				must(os.WriteFile(filepath.Join(dir, "a"), nil, 0o666)) // empty: any write shows in the size
-				must(os.Mkdir(filepath.Join(dir, "b"), 0o777))
-			}
-			parent := dir
-			root := filepath.Join(parent, "r")
-			must(os.Mkdir(root, 0o777))
-			must(os.Mkdir(filepath.Join(root, "a"), 0o777))
-			must(os.WriteFile(filepath.Join(root, "a", "b"), []byte("in"), 0o666))
-			must(os.WriteFile(filepath.Join(root, "b"), []byte("inside"), 0o666))
-			var d Dir
-			switch x.Style {
-			case 0:
-				d = Dir(root)
-			case 1:
-				d = Dir(root + "/")
-			case 2:
-				d = Dir(root + "/../r")
-			case 3:
-				d = Dir(parent + "//r")
-			case 4:
-				d = Dir(parent + "/./r")
-			default:
-				panic("bad style")
-			}
+			tr := c45MkTree(filepath.Join(tmp, fmt.Sprint(vx.Hash64(x.Name)%64)), levels, x.Kind, x.Style)
+			defer os.RemoveAll(tr.base)
+			d := tr.d
+			how := c45Kinds[x.Kind] + " " + c45Styles[x.Style]
 			segs, nul := c45Norm(x.Name)
 			isRoot := !nul && len(segs) == 0
 			ctx := context.Background()
-			out0, in0 := c45Snap(base, root)
+			out0, in0 := c45Snap(tr.base, tr.inside)
 
 			type opT struct {
 				name     string
@@ -273,13 +358,13 @@ func TestVerif_C45(t *testing.T) {
 			inPrev := in0
 			for _, op := range ops {
 				err := op.run()
-				out1, in1 := c45Snap(base, root)
-				if fi, e := os.Lstat(root); e != nil || !fi.IsDir() {
-					w.Failf("C45/root/"+op.name+"/root-gone", "after Dir.%s(%q) the root directory is gone (%v)", op.name, x.Name, e)
+				out1, in1 := c45Snap(tr.base, tr.inside)
+				if gone := tr.rootGone(); gone != "" {
+					w.Failf("C45/root/"+op.name+"/root-gone", "after Dir(%s).%s(%q) (err=%v) the root is gone: %s", how, op.name, x.Name, err, gone)
 					return
 				}
 				if out1 != out0 {
-					w.Failf("C45/confinement/"+op.name+"/changed-outside-root", "Dir(%s).%s(%q) (err=%v) changed the tree outside the root:\nbefore:\n%s\nafter:\n%s", c45Styles[x.Style], op.name, x.Name, err, out0, out1)
+					w.Failf("C45/confinement/"+op.name+"/changed-outside-root", "Dir(%s).%s(%q) (err=%v) changed the tree outside the root:\nbefore:\n%s\nafter:\n%s", how, op.name, x.Name, err, out0, out1)
 					return
 				}
 				if nul {
@@ -294,11 +379,11 @@ func TestVerif_C45(t *testing.T) {
 				}
 				if isRoot && op.refusing {
 					if err == nil {
-						w.Failf("C45/root/"+op.name+"/not-refused", "Dir(%s).%s on %q, which denotes the root, returned nil", c45Styles[x.Style], op.name, x.Name)
+						w.Failf("C45/root/"+op.name+"/not-refused", "Dir(%s).%s on %q, which denotes the root, returned nil", how, op.name, x.Name)
 						return
 					}
 					if in1 != inPrev {
-						w.Failf("C45/root/"+op.name+"/refused-but-changed", "Dir(%s).%s on %q, which denotes the root, failed (%v) but changed the contents of the root:\nbefore:\n%s\nafter:\n%s", c45Styles[x.Style], op.name, x.Name, err, inPrev, in1)
+						w.Failf("C45/root/"+op.name+"/refused-but-changed", "Dir(%s).%s on %q, which denotes the root, failed (%v) but changed the contents of the root:\nbefore:\n%s\nafter:\n%s", how, op.name, x.Name, err, inPrev, in1)
 						return
 					}
 				}
@@ -315,6 +400,93 @@ func TestVerif_C45(t *testing.T) {
 				w.Nontrivial()
 				w.Outcome("fs:inside")
 			}
+		})
+
+		// ---- operations on the root itself
+		var rootNames []string // every name of the behavioural set that denotes the root, shortest first
+		shortRoots := 0        // those of fewer fragments than the bound: all five root path spellings
+		for i, n := range behNames {
+			if segs, nul := c45Norm(n); !nul && len(segs) == 0 {
+				rootNames = append(rootNames, n)
+				if i < allStyles {
+					shortRoots++
+				}
+			}
+		}
+		c.Note("root_spellings", len(rootNames))
+		vx.Enumerate(c, "root-ops", vx.Opts{}, func(yield func(c45Beh) bool) {
+			for i, n := range rootNames {
+				for k := range c45Kinds {
+					for s := range c45Styles {
+						if i >= shortRoots && s >= 2 {
+							break
+						}
+						if !yield(c45Beh{Style: s, Name: n, Kind: k}) {
+							return
+						}
+					}
+				}
+			}
+		}, func(w *vx.W, x c45Beh) {
+			if segs, nul := c45Norm(x.Name); nul || len(segs) != 0 {
+				panic("c45 root-ops: case name does not denote the root")
+			}
+			tr := c45MkTree(filepath.Join(tmp, fmt.Sprint(vx.Hash64(x.Name)%64)), levels, x.Kind, x.Style)
+			defer os.RemoveAll(tr.base)
+			d := tr.d
+			how := c45Kinds[x.Kind] + " " + c45Styles[x.Style]
+			ctx := context.Background()
+			out0, in0 := c45Snap(tr.base, tr.inside)
+			// Every call names the root on at least one side, so on a tree
+			// that refuses all of them nothing ever changes and the calls
+			// can share one fixture; the first deviation ends the case.
+			try := func(op, partner, call string, err error) bool {
+				out1, in1 := c45Snap(tr.base, tr.inside)
+				if gone := tr.rootGone(); gone != "" {
+					w.Failf("C45/root/"+op+"/root-gone", "after Dir(%s).%s (partner: %s; err=%v) the root is gone: %s", how, call, partner, err, gone)
+					return false
+				}
+				if out1 != out0 {
+					w.Failf("C45/root/"+op+"/changed-outside-root", "Dir(%s).%s (partner: %s; err=%v) changed the tree outside the root:\nbefore:\n%s\nafter:\n%s", how, call, partner, err, out0, out1)
+					return false
+				}
+				if err == nil {
+					w.Failf("C45/root/"+op+"/not-refused", "Dir(%s).%s (partner: %s) operates on the root itself and returned nil", how, call, partner)
+					return false
+				}
+				if in1 != in0 {
+					w.Failf("C45/root/"+op+"/refused-but-changed", "Dir(%s).%s (partner: %s) operates on the root itself, failed (%v) but changed the contents of the root:\nbefore:\n%s\nafter:\n%s", how, call, partner, err, in0, in1)
+					return false
+				}
+				return true
+			}
+			partners := []struct{ name, what string }{
+				{"/b", "file"}, {"/a/b", "nested file"}, {"/a", "non-empty directory"}, {"/e", "empty directory"},
+				{"/c", "missing name"}, {"/a/c", "missing nested name"}, {"/e/c", "missing name in an empty directory"},
+			}
+			for _, p := range partners {
+				if !try("Rename-to", p.what, fmt.Sprintf("Rename(%q, %q)", p.name, x.Name), d.Rename(ctx, p.name, x.Name)) {
+					return
+				}
+			}
+			for _, p := range partners {
+				if !try("Rename-from", p.what, fmt.Sprintf("Rename(%q, %q)", x.Name, p.name), d.Rename(ctx, x.Name, p.name)) {
+					return
+				}
+			}
+			for _, r := range []string{"/", "", "/.", "/a/..", x.Name} {
+				if !try("Rename-both", "root", fmt.Sprintf("Rename(%q, %q)", x.Name, r), d.Rename(ctx, x.Name, r)) {
+					return
+				}
+				if !try("Rename-both", "root", fmt.Sprintf("Rename(%q, %q)", r, x.Name), d.Rename(ctx, r, x.Name)) {
+					return
+				}
+			}
+			if !try("RemoveAll", "none", fmt.Sprintf("RemoveAll(%q)", x.Name), d.RemoveAll(ctx, x.Name)) {
+				return
+			}
+			w.Nontrivial()
+			w.Outcome("root-ops:" + c45Kinds[x.Kind] + ":all-refused")
 		})
 	})
 }
